@@ -3,6 +3,8 @@ C13 line-protocol driver.  One case = one admin handler + one request:
 
   req  <side> <addr> <origins> <eo> <acl> <pats> <idx> <method> <host> <path> <upg> <origin> <referer> <tls>
   load <side> <addr> …same fields…     the same case driven through caddy.Load of a JSON config
+  cli  <flag> <listen|~> <origins> <eo>  the CLI side: real DetermineAdminAPIAddress + AdminAPIRequest (GET /config/) against the endpoint
+                                       the real caddy.Load of that config starts; the free TCP port is written PORT
   hist <step> …                        a HISTORY of config loads (real caddy.Load each), step = <local>@<remote>, local = n | d | a0 | a1,
                                        remote = ~ | a2=<acl> | a3=<acl>; after each load every admin address configured so far is
                                        probed over the network (HTTP / mutual TLS with the keys 0..3): L<id>:up|dn R<id>:dn|<4 × s m p r>
@@ -38,6 +40,7 @@ import CaddyModel.C13.Caddyfile
 import CaddyModel.C13.Url
 import CaddyModel.C13.Netip
 import CaddyModel.C13.Lifecycle
+import CaddyModel.C13.Cli
 
 namespace CaddyModel.C13
 
@@ -346,7 +349,56 @@ def handleHist (steps : List String) : String :=
     | some hist => " / ".intercalate (histAnswers [] hist Life.init)
     | none => "bad-op"
 
+/-- the protocol writes the (unknown, free) TCP port of a `cli` case as the word PORT; the model
+    takes 2019 for it (no outcome depends on the number) -/
+def substPort : Bytes → Bytes
+  | [] => []
+  | c :: cs => if hasPrefix (c :: cs) (str "PORT") then str "2019" ++ substPort (cs.drop 3) else c :: substPort cs
+termination_by s => s.length
+decreasing_by all_goals simp_wf <;> omega
+
+def cliBindable (network host : Bytes) (port : Nat) : Bool :=
+  (network == sTcp && port == 2019 && [str "127.0.0.1", str "localhost", str "127.0.0.2"].contains host) ||
+  (network == sUnix && (host == str "c13-cli.sock" || host == str "c13-default.sock"))
+
+/-- `cli <addressFlag> <admin.listen | ~> <origins> <eo>`: the real `DetermineAdminAPIAddress` +
+    `AdminAPIRequest` (GET /config/) against the endpoint the real `caddy.Load` of that config starts
+    → `<address the CLI chose> served | refused:<why> | invalid-address` -/
+def handleCli : List String → String
+  | [flag, cfgl, origins, eo] =>
+    match Hex.decode flag, (if cfgl == "~" then some [] else Hex.decode cfgl), parseOrigins origins, parseBool eo with
+    | some flag, some cfgl, some os, some eo =>
+      if !(flag.all listenByteOK) || !(cfgl.all listenByteOK) || flag.contains 123 || cfgl.contains 123 then "bad-op"
+      else
+        let adminAddr := determineAdminAddr flag (some cfgl) defaultLocalListen
+        let serverListen := if cfgl = [] then defaultLocalListen else cfgl
+        match parseNetworkAddress (substPort serverListen) with
+        | .err => "bad-op"
+        | .ok sn sh sp =>
+          if !cliBindable sn sh sp then "bad-op"
+          else
+            let same := adminAddr == serverListen ||
+              (match parseNetworkAddress (substPort adminAddr) with
+               | .ok an ah ap => an == sTcp && sn == sTcp && ap == sp &&
+                   [str "127.0.0.1", str "localhost"].contains ah && [str "127.0.0.1", str "localhost"].contains sh
+               | .err => true)
+            if !same then "bad-op"
+            else match cliRequestFor (substPort adminAddr) with
+              | none => s!"{Hex.encode adminAddr} invalid-address"
+              | some (_, _, host, origin) =>
+                let os' := os.map (fun l => l.map (fun e => (⟨substPort e.raw, urlParse (substPort e.raw)⟩ : OriginEntry)))
+                let hd := newAdminHandler ⟨os', eo, none⟩ ⟨sn, sh, sp, ipClassOf sh⟩ false linkedModulePats
+                let r : Req := ⟨str "GET", host, pConfig, [], origin, [], urlParse origin, urlParse [], none⟩
+                let res := serveReal probeHits hd [] 2 r 0
+                let out := match res.final with
+                  | .handled _ => "served"
+                  | f => showFinal f
+                s!"{Hex.encode adminAddr} {out}"
+    | _, _, _, _ => "bad-op"
+  | _ => "bad-op"
+
 def handle : List String → String
+  | "cli" :: rest => handleCli rest
   | "hist" :: rest => handleHist rest
   | "ip" :: rest => handleIp rest
   | "url" :: rest => handleUrl rest
